@@ -19,6 +19,7 @@ from vlib import common as C
 
 sys.path.insert(0, os.path.join(C.ROOT, "tools"))
 import translate_fitness_ops  # noqa: E402
+import fitness_users  # noqa: E402
 from cxx2lean import Refuse  # noqa: E402
 
 SIGN = 1 << 63
@@ -143,10 +144,48 @@ def fmtv(v):
     return " ".join(["v", str(len(v))] + [fmt(x) for x in v])
 
 
+EPS2 = 2.0 * 2.0 ** -52
+
+
+def ref_issmall(v):
+    return math.fabs(v) < EPS2
+
+
+def ref_aeq(v1, v2, e):
+    """utility.h almost_equal on doubles, written from its documentation"""
+    diff = math.fabs(v1 - v2)
+    if ref_issmall(diff):
+        return True
+    v1, v2 = math.fabs(v1), math.fabs(v2)
+    largest = v2 if v1 < v2 else v1            # std::max
+    return diff <= largest * e
+
+
+def ref_show(x):
+    """what `std::ostream << double` writes with the default format (%g, precision 6)"""
+    if math.isnan(x):
+        return "-nan" if bits(x) & SIGN else "nan"
+    return "%g" % x
+
+
 def ref_value(cmd, a, b, s):
     """Scalar-definition oracle of the element-wise operations (a, b patterns; s scalar)."""
     fa = [dbl(x) for x in a]
     fb = [dbl(x) for x in b] if b is not None else None
+    if cmd == "aeq":
+        if len(fb) < len(fa):
+            return "fault"
+        return "r 1" if all(ref_aeq(x, y, dbl(s)) for x, y in zip(fa, fb)) else "r 0"
+    if cmd == "isfinite":
+        return "r 1" if all(not (math.isnan(x) or math.isinf(x)) for x in fa) else "r 0"
+    if cmd == "isnan":
+        return "r 1" if any(math.isnan(x) for x in fa) else "r 0"
+    if cmd == "issmall":
+        return "r 1" if all(ref_issmall(x) for x in fa) else "r 0"
+    if cmd == "isnonneg":
+        return "r 1" if all(x >= 0.0 for x in fa) else "r 0"
+    if cmd == "show":
+        return "t (" + ", ".join(ref_show(x) for x in fa) + ")"
     if cmd in ("add", "sub", "mul"):
         if len(fb) < len(fa):
             return "fault"
@@ -251,12 +290,24 @@ def run(chk, replay=None):
     table_txt = None
     try:
         tbl, changed = translate_fitness_ops.emit(gen)
-        table_txt = ["%s := %s" % p for p in tbl]
+        table_txt = ["%s := %s: %s" % p for p in tbl]
         chk.cov["derivation_table"] = table_txt
         chk.cov["gen_changed_vs_committed"] = bool(changed)
     except Refuse as e:
-        broken.append("translator tools/translate_fitness_ops.py refuses the current fitness.tcc / "
+        broken.append("translator tools/translate_fitness_ops.py refuses the current fitness.tcc / utility.h / "
                       "model_measurements.h: %s" % e)
+
+    # users of the order: call sites found by clang's AST matchers -> GenUsers.lean (theorem users_covered)
+    try:
+        us, rows, uchanged, ucached = fitness_users.emit(os.path.join(C.LEAN, "Vita", "C18", "GenUsers.lean"),
+                                                         os.path.join(C.BUILD, "c18_users"))
+        chk.cov["users"] = ["%s:%d %s uses %s on %s" % (u["file"], u["line"], u["fn"], u["callee"], u["kind"])
+                            for u in us]
+        chk.cov["users_changed_vs_committed"] = bool(uchanged)
+        for u in us:
+            chk.count("user:%s/%s" % (u["callee"], u["kind"]))
+    except Refuse as e:
+        broken.append("tools/fitness_users.py cannot extract the users of the fitness comparisons: %s" % e)
 
     drv_ok = False
     if table_txt is not None:
@@ -266,8 +317,8 @@ def run(chk, replay=None):
             broken.append("driver does not build from the generated definitions: " + C.lean_errors(out))
         ok, msg = chk.prove("Vita.C18.Props", ["Vita.C18.Props"])
         if not ok:
-            broken.append("theorems of Vita.C18.Props no longer check over the regenerated operator "
-                          "definitions: " + msg)
+            broken.append("theorems of Vita.C18.Props no longer check over the bodies regenerated from the AST "
+                          "(before any sampling): " + msg)
     else:
         chk.obligations = max(chk.obligations, 1)
 
@@ -363,8 +414,51 @@ def run(chk, replay=None):
                     a = tuple(bits((rng.between(-30000, 30000) + rng.choice([0.0, 0.5, 0.49999, 0.50001]))
                                    * 0.0001) for _ in range(len(a)))
                 add("%s %s" % (cmd, vtxt(a)))
+        # (6) almost_equal, the predicates and operator<<
+        eps_vals = [bits(0.00001), bits(0.0), bits(0.5), bits(1.0), bits(1e-300), INF, bits(-0.00001)]
+        small = [0, SIGN, 1, bits(2.0 ** -52), bits(2.0 ** -51), bits(2.0 ** -51) - 1, bits(2.0 ** -51) + 1,
+                 bits(-2.0 ** -51), bits(4.4e-16), bits(1e-15)]
+        for x in T + small:
+            for cmd in ("isfinite", "isnan", "issmall", "isnonneg", "show"):
+                add("%s 1 %d" % (cmd, x))
+            for y in T + small:
+                add("aeq 1 %d 1 %d %d" % (x, y, eps_vals[0]))
+        add("show 0")
+        for _ in range(15000 if chk.tier == "quick" else 200000):
+            cmd = rng.choice(["aeq", "aeq", "isfinite", "isnan", "issmall", "isnonneg", "show"])
+            a = g.vec(5, rng.chance(0.15))
+            if cmd == "aeq":
+                k = rng.below(10)
+                if k < 5:                          # a neighbour of a: relative error around the tolerance
+                    b = []
+                    for x in a:
+                        m = rng.below(5)
+                        fx = dbl(x)
+                        if m == 0 or is_nan(x) or math.isinf(fx):
+                            b.append(x)
+                        elif m == 1:
+                            b.append(bits(fx * (1.0 + rng.choice([1e-5, 9e-6, 1.1e-5, -1e-5, 1e-9, 1e-3]))))
+                        elif m == 2:
+                            b.append(bits(fx + rng.choice([4e-16, 5e-16, -4.4e-16, 2.0 ** -51])))
+                        elif m == 3:
+                            b.append(x ^ SIGN if (x & (SIGN - 1)) == 0 else x + 1 if not is_nan(x + 1) else x)
+                        else:
+                            b.append(g.elem())
+                    b = tuple(b)
+                    if rng.chance(0.2):
+                        b = b + (g.elem(),)
+                elif k < 8:
+                    b = tuple(g.elem(rng.chance(0.1)) for _ in range(len(a) + rng.below(2)))
+                else:
+                    b = tuple(g.elem() for _ in range(rng.below(len(a) + 1)))
+                add("aeq %s %s %d" % (vtxt(a), vtxt(b), rng.choice(eps_vals)))
+            else:
+                if cmd == "issmall" and rng.chance(0.6):
+                    a = tuple(rng.choice(small) for _ in range(len(a)))
+                add("%s %s" % (cmd, vtxt(a)))
         # malformed requests: both sides must answer bad-op
-        for ln in ("rel 2 1", "rel", "frob 1 2", "add 1 x 1 2", "rel 1 1 1 2 3", "mm 1 1 1 1"):
+        for ln in ("rel 2 1", "rel", "frob 1 2", "add 1 x 1 2", "rel 1 1 1 2 3", "mm 1 1 1 1", "aeq 1 1 1 1",
+                   "show 2 1", "isnan"):
             add(ln)
 
     cpp, deaths = C.run_lines(exe, lines)
@@ -436,17 +530,29 @@ def run(chk, replay=None):
             if cmd in ("add", "sub", "mul", "dist", "combine"):
                 b = [int(x) for x in rest[1:]]
                 want = ref_value(cmd, a, b, None)
+            elif cmd == "aeq":
+                m = int(rest[0])
+                b = [int(x) for x in rest[1:1 + m]]
+                want = ref_value(cmd, a, b, int(rest[1 + m]))
+                if want == "r 1":
+                    chk.count("aeq:true")
             elif cmd in ("divs", "muls"):
                 want = ref_value(cmd, a, None, int(rest[0]))
             else:
                 want = ref_value(cmd, a, None, None)
+            if cmd == "show" and l is not None and l.startswith("t "):
+                # the model prints `#bits` where the code prints a double through the stream
+                import re as _re
+                l = _re.sub(r"#(\d+)", lambda mo: ref_show(dbl(int(mo.group(1)))), l)
+            if cmd == "aeq" and c == "fault" and l == "r 0":
+                l = "fault"          # an earlier pair already differs: the model need not read past the end
             if "nan" in c:
                 chk.count("result_has_nan")
             if c == "fault":
                 chk.count("contract_fault")
         if want is not None and c != want:
             what = ("model_measurements operator>= differs from dominance-and-accuracy" if cmd == "mm" else
-                    "element-wise %s disagrees with its scalar definition" % cmd)
+                    "%s disagrees with its scalar definition" % cmd)
             chk.violation("%s on `%s`: code %r, scalar definition %r" % (what, ln, c, want),
                           {"lines": [ln], "cpp": c, "expected": want}, tags={"law": "scalar:" + cmd, "line": ln})
         if l is not None and l != c:
@@ -546,10 +652,16 @@ def run(chk, replay=None):
             def win(l):
                 best = l[0]
                 for y in l[1:]:
-                    if rel[(y, best)][GT]:
+                    r = rel.get((y, best))
+                    if r is None:               # the harness died on this pair (reported above)
+                        return None
+                    if r[GT]:
                         best = y
                 return best
             w1, w2 = win(cand), win(perm)
+            if w1 is None or w2 is None or (w1, w2) not in rel:
+                chk.count("winner_skipped_harness_died")
+                continue
             nwin += 1
             if not rel[(w1, w2)][EQ]:
                 viol("winner_order_indep", tuple(dict.fromkeys(cand)),
@@ -578,12 +690,18 @@ def run(chk, replay=None):
         level="proof",
         checker_cmd="lake build Vita.C18.Props && lake env lean <#print axioms for every theorem>",
         rule="requests: all pairs of %d boundary scalars; all pairs of %d structured vectors (lengths 0..3); "
-             "random related pairs/triples of lengths 0..5; element-wise operations on table cross products and "
-             "random vectors.  distinct = distinct request lines; each is answered by the compiled vita operators "
-             "and by the Lean definitions generated from the AST, and the C++ answers are checked against the law "
-             "instances and an independent Python reference" % (len(T), len(U)),
-        trusted=["Lean 4.33 kernel", "tools/translate_fitness_ops.py + cxx2lean.py (clang-14 JSON AST -> operator "
-                 "derivation table)", "Vita/C18/Model.lean: lexLt / equal4 as models of libstdc++ "
-                 "std::lexicographical_compare / std::equal; dominating, arithmetic loops (hand-written, tied by the "
-                 "differential run)", "law KeyMono: IEEE-754 comparison of non-NaN doubles = comparison of dkey "
-                 "(spot-checked on all table pairs + random patterns each run)", "g++ 12.2 / ASan+UBSan build"])
+             "random related pairs/triples of lengths 0..5; element-wise operations, almost_equal, the predicates "
+             "and operator<< on table cross products and random vectors.  distinct = distinct request lines; each "
+             "is answered by the compiled vita functions and by the Lean terms generated from the BODIES in the "
+             "AST (loop language of Loop.lean), and the C++ answers are checked against the law instances and an "
+             "independent Python reference" % (len(T), len(U)),
+        trusted=["Lean 4.33 kernel", "tools/translate_fitness_ops.py + cxx2lean.py (clang-14 JSON AST -> bodies as "
+                 "terms of the loop language; refuses unknown shapes)", "Vita/C18/Loop.lean: meaning of the loop "
+                 "combinators (forIdx, rd, wr, call) and of the library algorithms the bodies call "
+                 "(std::lexicographical_compare, std::equal, all_of/any_of, inner_product, max, memcmp, copy into "
+                 "infix_iterator; operator[] / size / begin / end / insert-at-end / reserve of the containers), tied by "
+                 "the differential run", "tools/fitness_users.py (clang-query-14 AST matchers) and "
+                 "tools/tu/fitness_users_tu.cc (which templates are instantiated)", "law KeyMono: IEEE-754 comparison "
+                 "of non-NaN doubles = comparison of dkey; a > b is b < a, a >= b is b <= a, a != b is !(a == b) "
+                 "(spot-checked on all table pairs + random patterns each run)", "g++ 12.2 / ASan+UBSan build",
+                 "Python floats / '%g' as IEEE doubles and the default ostream format (reference oracle)"])
